@@ -64,12 +64,16 @@ def serial_send_contract(self, msg, in_transaction=False):
     return _wire(self, msg, "cmd")
 
 
+SEQ_BOUND = {"n": 3}
+
+
 class SeqModel:
     """a command sequence as the driver sees it: up to three yields (commands with or without a device type, sleeps,
     progress reports), then StopIteration or an exception of its own"""
 
     def __init__(self, ctx, unlimited=False):
         self.ctx = ctx
+        self.bound = SEQ_BOUND["n"]
         self.unlimited = unlimited      # loop-rule units: one arbitrary step per (arbitrary) iteration
         self.n = 0
         self.closed = False
@@ -81,7 +85,7 @@ class SeqModel:
         ctx = self.ctx
         self.started = True
         self.n += 1
-        k = ctx.choose_int(ctx.fresh_int("seq_step", 0, 5 if (self.n <= 3 or self.unlimited) else 1), "sequence step")
+        k = ctx.choose_int(ctx.fresh_int("seq_step", 0, 5 if (self.n <= self.bound or self.unlimited) else 1), "sequence step")
         if k == 0:
             v = ctx.fresh_int("seq_result", 0, 255)
             if getattr(ctx, "native", False):
@@ -147,6 +151,7 @@ def new_world(ctx, interp):
 
 def units(tier):
     CF.WMAX = 64
+    SEQ_BOUND["n"] = 4 if tier == "thorough" else 3
     U = []
     USE = USE0 + RAW_KEYS
 
